@@ -55,9 +55,9 @@ def index_replay(ctx, case):
 # ------------------------------------------------------------------ modes
 
 @st.composite
-def mode_cases(draw):
-    N = draw(st.integers(2, 96))
-    n = draw(st.integers(0, 12))
+def mode_cases(draw, nmax=96, order=12):
+    N = draw(st.integers(2, nmax))
+    n = draw(st.integers(0, order))
     am = draw(st.integers(0, n // 2)) * 2 + n % 2
     m = am * draw(st.sampled_from([-1, 1]))
     js = draw(st.lists(st.integers(1, 66), min_size=1, max_size=6))
@@ -193,6 +193,7 @@ def self_test():
 
 
 LAWS = [
+    given_law("modes_xl", mode_cases(320, 20), mode_body, {"quick": 0, "thorough": 40}, shards={"quick": 1, "thorough": 16}),
     Law("noll_index", index_run, replay=index_replay, shards={"quick": 16, "thorough": 16}),
     given_law("modes", mode_cases(), mode_body, {"quick": 250, "thorough": 3750}, shards={"quick": 3, "thorough": 16}),
     plain_law("gram_ladder", gram_cases, gram_body, shards={"quick": 2, "thorough": 2}),
